@@ -1,4 +1,5 @@
 import GarbleVerif.Proofs.ArithMul
+import GarbleVerif.Proofs.ArithDiv
 /-!
 # C03 — integer operators and casts are bit-exact at every width
 
@@ -7,11 +8,12 @@ compiled circuits by the behavioural correspondence of `./check C03`). The theor
 compare it with exact integer arithmetic (`toNat`, `toInt`) — **for every width `n ≥ 1`**, not
 only 8/16/32/64, and all operand values.
 
-Proved: `+` (unsigned, signed), `-` (unsigned, signed), unary `-`, unsigned `*`, `<`/`>`
-(unsigned, signed), `==`/`!=`, `&`/`|`/`^`/`!`, every cast.
+Proved: `+` (unsigned, signed), `-` (unsigned, signed), unary `-`, unsigned `*`, `/` and `%`
+(unsigned: the restoring divider; signed: magnitudes divided, signs restored, `MIN / -1` excluded),
+`<`/`>` (unsigned, signed), `==`/`!=`, `&`/`|`/`^`/`!`, every cast.
 Not yet proved — kept as statements, explored exhaustively at 8 bits and at boundary values for
-wider types by the check: signed `*`, `/` and `%` (unsigned and signed), `<<`/`>>`, and the
-multiplication-by-literal rewrite (`C03_*_Statement`).
+wider types by the check: signed `*`, `<<`/`>>`, and the multiplication-by-literal rewrite
+(`C03_*_Statement`).
 -/
 namespace GV
 namespace Arith
@@ -88,6 +90,21 @@ theorem C03_cast (a : Bool) (rest : List Bool) (s : Bool) (k : Nat) :
     ∃ q : Int, valOf s (a :: rest) = (toNat (cast (a :: rest) s k) : Int) + q * (2 : Int) ^ k :=
   ⟨cast_length _ s k (by simp), cast_spec a rest s k⟩
 
+/-- unsigned `/` and `%`, all widths: for a non-zero divisor the restoring divider returns the Euclidean
+quotient and remainder (a zero divisor is reported as `DivByZero` by `binop`) -/
+theorem C03_udiv (x y : List Bool) (h : x.length = y.length) (hy : 0 < toNat y) :
+    toNat x = toNat (udiv x y).1 * toNat y + toNat (udiv x y).2 ∧ toNat (udiv x y).2 < toNat y ∧
+    toNat (udiv x y).1 = toNat x / toNat y ∧ toNat (udiv x y).2 = toNat x % toNat y :=
+  ⟨(udiv_spec x y h hy).1, (udiv_spec x y h hy).2.1, udiv_div_mod x y h hy⟩
+
+/-- signed `/` and `%` on `n + 1` bits: quotient rounded towards zero, remainder with the sign of the
+dividend, for every non-zero divisor except `MIN / -1` (which `binop` reports as `Overflow`) -/
+theorem C03_sdiv (a b : Bool) (x y : List Bool) (h : x.length = y.length) (hy : toInt (b :: y) ≠ 0)
+    (hmin : ¬ (toInt (a :: x) = -(2 : Int) ^ x.length ∧ toInt (b :: y) = -1)) :
+    toInt (sdiv (a :: x) (b :: y)).1 = Int.tdiv (toInt (a :: x)) (toInt (b :: y)) ∧
+    toInt (sdiv (a :: x) (b :: y)).2 = Int.tmod (toInt (a :: x)) (toInt (b :: y)) :=
+  sdiv_spec a b x y h hy hmin
+
 /-! ### statements not yet proved (full statements kept visible) -/
 
 def C03_mul_signed_Statement : Prop :=
@@ -96,16 +113,6 @@ def C03_mul_signed_Statement : Prop :=
     (r.2 = false → toInt r.1 = toInt (a :: x) * toInt (b :: y)) ∧
     (r.2 = true ↔ (toInt (a :: x) * toInt (b :: y) < -(2 : Int) ^ x.length ∨
       (2 : Int) ^ x.length ≤ toInt (a :: x) * toInt (b :: y)))
-
-def C03_udiv_Statement : Prop :=
-  ∀ (x y : List Bool), x.length = y.length → 0 < toNat y →
-    toNat x = toNat (udiv x y).1 * toNat y + toNat (udiv x y).2 ∧ toNat (udiv x y).2 < toNat y
-
-def C03_sdiv_Statement : Prop :=
-  ∀ (a b : Bool) (x y : List Bool), x.length = y.length → toInt (b :: y) ≠ 0 →
-    ¬ (toInt (a :: x) = -(2 : Int) ^ x.length ∧ toInt (b :: y) = -1) →
-    toInt (sdiv (a :: x) (b :: y)).1 = Int.tdiv (toInt (a :: x)) (toInt (b :: y)) ∧
-    toInt (sdiv (a :: x) (b :: y)).2 = Int.tmod (toInt (a :: x)) (toInt (b :: y))
 
 def C03_shift_Statement : Prop :=
   ∀ (left sx : Bool) (x amt : List Bool), x.length ∈ [8, 16, 32, 64] → amt.length = 8 →
@@ -120,6 +127,10 @@ example : toInt [true, false, false, false, false, false, false, false] = -128 :
 example : (negChecked [true, false, false, false, false, false, false, false]).2 = true := by decide
 example : (mul [false, true, false, false, false, false, false, false]
     [false, false, false, false, false, false, true, false] true).2 = true := by decide +kernel   -- 64 * 2 (signed)
+/-- `-7 / 2 = -3`, `-7 % 2 = -1` on 4 bits: the hypotheses of `C03_sdiv` are satisfiable -/
+example : toInt [true, false, false, true] = -7 ∧ toInt [false, false, true, false] = 2 ∧
+    toInt (sdiv [true, false, false, true] [false, false, true, false]).1 = -3 ∧
+    toInt (sdiv [true, false, false, true] [false, false, true, false]).2 = -1 := by decide +kernel
 example : (binop .div true true true [true, false, false, false, false, false, false, false]
     [true, true, true, true, true, true, true, true]).2 =
     [(false, .divByZero), (true, .overflow)] := by decide +kernel                      -- MIN / -1
